@@ -715,6 +715,10 @@ pub fn recover(
         let selected_packets = selected_packets.unwrap();
         let mut packets: Vec<IBCTransfer> = vec![];
         for packet_id in selected_packets {
+            // A packet listed more than once must be recovered only once
+            if packets.iter().any(|p| p.sequence == packet_id) {
+                continue;
+            }
             let packet = INFLIGHT_PACKETS.load(deps.storage, packet_id)?;
             // Ensure the selected packet are all for the same user
             if packet.receiver != receiver.as_str() {
